@@ -138,12 +138,14 @@ def cases(tier, seed):
         if len(prog.ins) == 2 and prog.ins[0][1] == 'R':
             for rec in ('ndarray', 'utpm11', 'utpmDP'):
                 out.append({'kind': 'late', 'seed': case_seed('C05', seed, 'late', prog.name, rec), 'params': {'prog': prog.name, 'rec': rec}})
+    for i in range(18 if tier == 'quick' else 300):
+        out.append({'kind': 'selfconst', 'seed': case_seed('C05', seed, 'selfconst', i), 'params': {'rec': ['ndarray', 'utpm11', 'utpmDP'][i % 3], 'form': (i // 3) % 6}})
     for i in range(12 if tier == 'quick' else 60):
         out.append({'kind': 'onoff', 'seed': case_seed('C05', seed, 'onoff', i), 'params': {}})
     return out
 
 
-REQUIRED = ['recording-value', 'replay:ndarray', 'replay:utpm', 'replay:complex', 'replay:same-object', 'trace-spec', 'trace-off', 'second-graph', 'late-independent', 'interleaved-recording']
+REQUIRED = ['recording-value', 'replay:ndarray', 'replay:utpm', 'replay:complex', 'replay:same-object', 'trace-spec', 'trace-off', 'second-graph', 'late-independent', 'interleaved-recording', 'replay:constant-is-recording-object']
 
 
 def _same(a, b, tol=TOL):
@@ -187,6 +189,8 @@ def run_case(ctx, case):
         return _onoff(ctx, rng)
     if case['kind'] == 'late':
         return _late(ctx, p, rng)
+    if case['kind'] == 'selfconst':
+        return _selfconst(ctx, p, rng)
     if case['kind'] == 'single':
         prog = progs.by_name(p['prog']); f = prog.f; ins = prog.ins; label = prog.name
     else:
@@ -328,6 +332,47 @@ def _trace_spec(ctx, label, cg, spy):
         ctx.violation('trace-spec:unexplained-nodes', {'program': label, 'explained': k, 'nodes': len(opnodes)}); return False
     ctx.ok('trace-spec', ('trace', label), sample={'program': label, 'nodes': len(fl), 'operations': k, 'auxiliary_nodes': len(fl) - len(opnodes)} if k > 6 and len(ctx.samples) < 6 else None)
     return True
+
+
+def _selfconst(ctx, p, rng):
+    """the program uses, as a constant, the very array object the independent variable was created from (x0 = ...; x = Function(x0);
+    y = f(x, x0) - a residual against the starting point, a step relative to it): on a replay the constant is still x0"""
+    shape = [(3,), (2, 2), (3,)][p['form'] % 3]
+    c = progs.rec_value(p['rec'], gen.base_sampler('R')(rng, shape), rng)
+    c0 = _copy(c)
+
+    def buf(x, c):
+        b = algopy.zeros(shape, dtype=x)
+        b[...] = c
+        return b * x + x
+    f = [lambda x, c: x * c, lambda x, c: c + x * x, lambda x, c: (x - c) * (x - c) + algopy.sin(x), lambda x, c: x / (c * c + 1.0),
+         buf, lambda x, c: algopy.dot(c, x) if len(shape) == 2 else c * algopy.sum(x)][p['form']]
+    try:
+        cg = CGraph()
+        fx = Function(c)
+        y = f(fx, c)
+        cg.trace_off()
+        cg.independentFunctionList = [fx]; cg.dependentFunctionList = [y]
+    except Exception:
+        ctx.skip('not-traceable:selfconst'); return
+    D, P = (c.data.shape[:2] if isinstance(c, UTPM) else (2, 2))
+    for kind in ('ndarray', 'utpm', 'ndarray'):
+        xs = _mk_replay(rng, [(shape, 'R')], kind, D, P)
+        try:
+            want = f(_copy(xs[0]), c0)
+        except Exception:
+            ctx.skip('direct-run-unsupported:selfconst'); continue
+        try:
+            got = cg.function([_copy(xs[0])])[0]
+        except Exception as e:
+            ctx.violation('replay:constant-is-recording-object:raises', {'form': p['form'], 'rec': p['rec'], 'replay': kind, 'error': str(e)[:200]}); return
+        ok, exact, err = _same(got, want)
+        if not ok:
+            ctx.violation('replay:constant-is-recording-object:value', {'form': p['form'], 'rec': p['rec'], 'replay': kind, 'err': err}); return
+        ctx.ok('replay:constant-is-recording-object', ('selfconst', p['form'], p['rec'], kind), exact=exact)
+    cnow = c.data if isinstance(c, UTPM) else c
+    if not np.array_equal(cnow, c0.data if isinstance(c0, UTPM) else c0):
+        ctx.violation('replay:constant-is-recording-object:recording-array-changed', {'form': p['form'], 'rec': p['rec']}); return
 
 
 def _late(ctx, p, rng):
